@@ -688,7 +688,8 @@ def oracle_targeted(arg, out):
         forms = [w] if isinstance(w, str) else [w[0], repr(w[0])[1:-1]]
         if set(forms[0]) & LB:
             continue          # a line break in the planted text splits the input line: nothing to demand
-        if not any(f in whole for f in forms):
+        squeeze = lambda x: ' '.join(x.split())     # .bib values are whitespace-normalised by the parser
+        if not any(f in whole or (squeeze(f) and squeeze(f) in squeeze(whole)) for f in forms):
             return 'the user-controlled text %r does not appear verbatim in the rendered problems %r' % (forms[0], texts)
     return None
 
